@@ -3,6 +3,7 @@ import Walrus.Proofs.GcCode
 import Walrus.Proofs.GcCodeEmit
 import Walrus.Proofs.BodiesOK
 import Walrus.Proofs.PlainEmit
+import Walrus.Proofs.Shape
 
 /-!
 # C02 (continued) — after the GC pass every section finds the indices it needs
@@ -165,6 +166,28 @@ theorem parse_then_emit_answers_checked (m : ModuleM) (pfs : List ParsedFunc)
 example : (parseCode (codeOf sample)).map (fun pfs => (bodiesOKc sample pfs, sectionsOK sample, funcRefsOK sample)) =
     some (true, true, true) := by decide
 example : (roundTripModule sample).isSome = true := by decide
+
+/-- **the two totality theorems with hypotheses on the input alone**: for a well-nested body the
+    success of the parse already is the answer of its tree-level description
+    (`expL_of_buildBody`, Proofs/ParseConverse: the converse of the C03 parse theorem), so the only
+    hypotheses left are the shape of the bodies (`shapesOK`), of the other sections (`sectionsOK`,
+    `funcRefsOK`) and, for the pass, that references are in range (`gcWF`) — and that the model's
+    parse answered. After GC: -/
+theorem after_gc_the_whole_module_emits_by_shape (m : ModuleM) (g : GcInfo) (hg : mkGcInfo m = some g)
+    (hlen : m.code.length = m.funcs.length) (hw : gcWF g = true) (hs : sectionsOK m = true)
+    (hb : shapesOK m = true) : (gcRoundTrip m).isSome = true := by
+  obtain ⟨hp, _, _⟩ := mkGcInfo_spec m g hg
+  exact after_gc_the_whole_module_emits m g hg hlen hw (sectionsOK_sound m hs)
+    (bodiesWFc_of_shape (codeOf m) g.pfs hp (shapesOK_sound m hb))
+
+/-- … and without a pass -/
+theorem parse_then_emit_answers_by_shape (m : ModuleM) (pfs : List ParsedFunc)
+    (hlen : m.code.length = m.funcs.length) (hp : parseCode (codeOf m) = some pfs)
+    (hb : shapesOK m = true) (hs : sectionsOK m = true) (hr : funcRefsOK m = true) :
+    (roundTripModule m).isSome = true :=
+  plain_module_emits m pfs hlen hp (bodiesWFc_of_shape (codeOf m) pfs hp (shapesOK_sound m hb)) hs hr
+
+example : shapesOK sample = true := by decide
 
 end C02
 end Walrus
